@@ -68,6 +68,16 @@ RenameExpr(e, rho) ==
     [] e.op = "pow" -> Pow(RenameExpr(e.b, rho), e.n)
     [] e.op = "fn"  -> Fn(e.f, RenameExpr(e.a, rho))
 
+\* the symbol n measured in units c times larger: every occurrence of n becomes c * n
+RECURSIVE ScaleSym(_, _, _)
+ScaleSym(e, n, c) ==
+  CASE e.op = "sym"   -> IF e.name = n THEN Bin("mul", CI(c), e) ELSE e
+    [] e.op = "const" -> e
+    [] e.op \in BinOps -> Bin(e.op, ScaleSym(e.l, n, c), ScaleSym(e.r, n, c))
+    [] e.op = "neg" -> Neg(ScaleSym(e.a, n, c))
+    [] e.op = "pow" -> Pow(ScaleSym(e.b, n, c), e.n)
+    [] e.op = "fn"  -> Fn(e.f, ScaleSym(e.a, n, c))
+
 RECURSIVE Size(_)
 Size(e) ==
   CASE e.op \in {"sym", "const"} -> 1
